@@ -18,6 +18,7 @@ import (
 // the start of the harness or from the command line).
 type Options struct {
 	ForkShifts   bool
+	IntMode      bool
 	MaxSteps     int
 	MaxPaths     int
 	MaxChoices   int
@@ -28,6 +29,8 @@ type Options struct {
 }
 
 type targetPanic struct{ v Value }
+
+type rtypeMethod struct{ name string }
 
 // pathEnd unwinds the whole interpreter at the end of a path.
 type pathEnd struct{ why string }
@@ -53,6 +56,7 @@ type frame struct {
 	panicVal  interface{}
 	cut       *cutState
 	mergeCond []*mergeArm
+	skipPhis  bool
 }
 
 type cutSpec struct {
@@ -62,9 +66,34 @@ type cutSpec struct {
 }
 
 type cutState struct {
-	spec   *cutSpec
-	header *ssa.BasicBlock
-	active bool
+	spec     *cutSpec
+	header   *ssa.BasicBlock
+	active   bool
+	bodyOnly bool
+	inLoop   map[*ssa.BasicBlock]bool
+}
+
+// loopBlocks returns the natural loop of header h.
+func loopBlocks(h *ssa.BasicBlock) map[*ssa.BasicBlock]bool {
+	in := map[*ssa.BasicBlock]bool{h: true}
+	var stack []*ssa.BasicBlock
+	for _, p := range h.Preds {
+		if h.Dominates(p) && !in[p] {
+			in[p] = true
+			stack = append(stack, p)
+		}
+	}
+	for len(stack) > 0 {
+		b := stack[len(stack)-1]
+		stack = stack[:len(stack)-1]
+		for _, p := range b.Preds {
+			if !in[p] {
+				in[p] = true
+				stack = append(stack, p)
+			}
+		}
+	}
+	return in
 }
 
 type mergeArm struct {
@@ -121,6 +150,12 @@ type Engine struct {
 	pinned        map[string]uint64
 	program       *Program
 	fnByName      map[string]*ssa.Function
+	decided       map[uint32]bool
+	uniq          map[uint32]uniqRes
+	tableInit     *ssa.Function
+	skipInit      map[*ssa.Function]func()
+	curFn         *ssa.Function
+	curInstr      ssa.Instruction
 }
 
 // FuncHash returns the source hash of an executed function.
@@ -195,6 +230,17 @@ func (e *Engine) branch(c *term.T, what string) bool {
 	if e.initing {
 		panic(unsupported("symbolic branch during package initialisation"))
 	}
+	if v, ok := e.decided[c.ID]; ok {
+		return v
+	}
+	defer func() {
+		if n := len(e.decisions); n > 0 {
+			e.decided[c.ID] = e.decisions[n-1] == 1
+			if nc := term.BNotNoCreate(c); nc != nil {
+				e.decided[nc.ID] = e.decisions[n-1] != 1
+			}
+		}
+	}()
 	var d uint64
 	if e.replaying() {
 		d = e.prefix[len(e.decisions)]
@@ -234,6 +280,10 @@ func (e *Engine) branch(c *term.T, what string) bool {
 
 // concretize forks over the feasible values of t.
 func (e *Engine) concretize(t *term.T, what string) uint64 {
+	return e.concretizeMax(t, what, 0)
+}
+
+func (e *Engine) concretizeMax(t *term.T, what string, limit int) uint64 {
 	if t.IsConst() {
 		return t.Val
 	}
@@ -247,6 +297,9 @@ func (e *Engine) concretize(t *term.T, what string) uint64 {
 		max := e.opt.MaxChoices
 		if max == 0 {
 			max = 70
+		}
+		if limit > max {
+			max = limit
 		}
 		var vals []uint64
 		e.S.Push()
@@ -302,6 +355,44 @@ func (e *Engine) concretize(t *term.T, what string) uint64 {
 	return v
 }
 
+// uniqueValue reports whether t has exactly one value on the current path.
+func (e *Engine) uniqueValue(t *term.T) (uint64, bool) {
+	if t.IsConst() {
+		return t.Val, true
+	}
+	if e.initing || t.IsInt() || t.W <= 0 {
+		return 0, false
+	}
+	if v, ok := e.uniq[t.ID]; ok {
+		return v.v, v.ok
+	}
+	// deterministic: no decision is recorded; the answer depends only on the pc
+	probe := term.Var(fmt.Sprintf("probe!%d", t.W), t.W)
+	e.S.Push()
+	e.S.Assert(term.Eq(probe, t))
+	r := e.S.Check()
+	e.res.FeasQueries++
+	res := uniqRes{}
+	if r == solver.Sat {
+		m := e.S.Model([]*term.T{probe})
+		v := m[probe.Name]
+		e.S.Assert(term.BNot(term.Eq(probe, term.Const(t.W, v))))
+		r2 := e.S.Check()
+		e.res.FeasQueries++
+		if r2 == solver.Unsat {
+			res = uniqRes{v, true}
+		}
+	}
+	e.S.Pop()
+	e.uniq[t.ID] = res
+	return res.v, res.ok
+}
+
+type uniqRes struct {
+	v  uint64
+	ok bool
+}
+
 // ---- frames ----
 
 func (fr *frame) get(key ssa.Value) Value {
@@ -352,6 +443,24 @@ func (e *Engine) call(caller *frame, pos token.Pos, fn Value, args []Value) Valu
 		return e.callSSA(caller, pos, fn.Fn, args, fn.Env)
 	case *ssa.Builtin:
 		return e.callBuiltin(caller, pos, fn, args)
+	case *rtypeMethod:
+		rt := args[0].(RType)
+		switch fn.name {
+		case "Size":
+			return term.Const(64, uint64(e.sizes.Sizeof(rt.T)))
+		case "Elem":
+			switch u := rt.T.Underlying().(type) {
+			case *types.Pointer:
+				return Iface{T: rtypeMarker, V: RType{u.Elem()}}
+			case *types.Slice:
+				return Iface{T: rtypeMarker, V: RType{u.Elem()}}
+			case *types.Array:
+				return Iface{T: rtypeMarker, V: RType{u.Elem()}}
+			}
+		case "String":
+			return rt.T.String()
+		}
+		panic(unsupported("reflect.Type method " + fn.name))
 	}
 	panic(unsupported(fmt.Sprintf("call of %T", fn)))
 }
@@ -369,6 +478,12 @@ func (e *Engine) callSSA(caller *frame, pos token.Pos, fn *ssa.Function, args []
 	}
 	if in, ok := intrinsics[name]; ok {
 		return in(e, caller, pos, args)
+	}
+	if e.initing {
+		if f, ok := e.skipInit[fn]; ok {
+			f()
+			return nil
+		}
 	}
 	if fn.Synthetic != "" && strings.HasPrefix(fn.Synthetic, "package initializer") {
 		e.initPackage(fn.Pkg)
@@ -460,11 +575,20 @@ func (e *Engine) runFrame(fr *frame) {
 			if e.steps > e.opt.MaxSteps {
 				panic(unsupported(fmt.Sprintf("step limit %d exceeded (unwinding bound)", e.opt.MaxSteps)))
 			}
+			e.curFn, e.curInstr = fr.fn, instr
 			if e.visitInstr(fr, instr) == kReturn {
 				return
 			}
 		}
 	}
+}
+
+// where describes the instruction being executed (for diagnostics).
+func (e *Engine) where() string {
+	if e.curFn == nil || e.curInstr == nil {
+		return ""
+	}
+	return fmt.Sprintf(" [in %s at %s: %v]", e.curFn, e.posStr(e.curInstr.Pos()), e.curInstr)
 }
 
 func zeroResults(fn *ssa.Function) Value {
@@ -534,7 +658,17 @@ func (e *Engine) enterBlock(fr *frame) {
 		}
 		return
 	}
+	if fr.skipPhis {
+		fr.skipPhis = false
+		return
+	}
+	if fr.cut != nil && fr.cut.bodyOnly && !fr.cut.inLoop[b] {
+		panic(pathEnd{"loop-exit"})
+	}
 	if fr.cut != nil && fr.cut.header == b {
+		if fr.cut.bodyOnly {
+			panic(pathEnd{"cut"})
+		}
 		e.cutAtHeader(fr, phis)
 		return
 	}
@@ -795,7 +929,13 @@ func (e *Engine) visitInstr(fr *frame, instr ssa.Instruction) continuation {
 	case *ssa.Extract:
 		fr.env[instr] = fr.get(instr.Tuple).(Tuple)[instr.Index]
 	case *ssa.Slice:
-		fr.env[instr] = e.sliceOp(fr.get(instr.X), fr.get(instr.Low), fr.get(instr.High), fr.get(instr.Max), instr.X.Type())
+		ix := func(v ssa.Value) Value {
+			if v == nil {
+				return nil
+			}
+			return idx64(fr.get(v), v.Type())
+		}
+		fr.env[instr] = e.sliceOp(fr.get(instr.X), ix(instr.Low), ix(instr.High), ix(instr.Max), instr.X.Type())
 	case *ssa.Return:
 		switch len(instr.Results) {
 		case 0:
@@ -845,7 +985,7 @@ func (e *Engine) visitInstr(fr *frame, instr ssa.Instruction) continuation {
 		*cell = zero(deref(instr.Type()))
 		fr.env[instr] = cell
 	case *ssa.MakeSlice:
-		lt, ct := asT(fr.get(instr.Len)), asT(fr.get(instr.Cap))
+		lt, ct := idx64(fr.get(instr.Len), instr.Len.Type()), idx64(fr.get(instr.Cap), instr.Cap.Type())
 		elem := instr.Type().Underlying().(*types.Slice).Elem()
 		n, c := e.makeLen(lt, "make-len"), e.makeLen(ct, "make-cap")
 		if n < 0 || c < n {
@@ -884,10 +1024,10 @@ func (e *Engine) visitInstr(fr *frame, instr ssa.Instruction) continuation {
 		case *types.Pointer:
 			elem = t.Elem().Underlying().(*types.Array).Elem()
 		}
-		fr.env[instr] = e.indexAddr(fr.get(instr.X), fr.get(instr.Index), elem, name)
+		fr.env[instr] = e.indexAddr(fr.get(instr.X), idx64(fr.get(instr.Index), instr.Index.Type()), elem, name)
 	case *ssa.Index:
 		x := fr.get(instr.X)
-		idx := asT(fr.get(instr.Index))
+		idx := idx64(fr.get(instr.Index), instr.Index.Type())
 		switch x := x.(type) {
 		case Array:
 			if idx.IsConst() {
@@ -920,7 +1060,7 @@ func (e *Engine) visitInstr(fr *frame, instr ssa.Instruction) continuation {
 			}
 		case string, *SymStr:
 			bs := strBytes(x)
-			i, _ := e.checkIndex(asT(fr.get(instr.Index)), len(bs))
+			i, _ := e.checkIndex(idx64(fr.get(instr.Index), instr.Index.Type()), len(bs))
 			fr.env[instr] = bs[i]
 		default:
 			panic(unsupported(fmt.Sprintf("Lookup on %T", x)))
@@ -940,6 +1080,18 @@ func (e *Engine) visitInstr(fr *frame, instr ssa.Instruction) continuation {
 		panic(unsupported(fmt.Sprintf("instruction %T", instr)))
 	}
 	return kNext
+}
+
+// idx64 widens an index / length operand to 64 bits according to its Go type.
+func idx64(v Value, t types.Type) *term.T {
+	x := asT(v)
+	if x.IsInt() || x.W == 64 {
+		return x
+	}
+	if isSigned(t) {
+		return term.SExt(x, 64)
+	}
+	return term.ZExt(x, 64)
 }
 
 func (e *Engine) makeLen(t *term.T, what string) int {
@@ -1010,6 +1162,9 @@ func (e *Engine) prepareCall(fr *frame, call *ssa.CallCommon) (fn Value, args []
 		recv := v.(Iface)
 		if recv.T == nil {
 			e.goPanic("runtime error: invalid memory address or nil pointer dereference (method on nil interface)")
+		}
+		if rt, ok := recv.V.(RType); ok {
+			return &rtypeMethod{call.Method.Name()}, []Value{rt}
 		}
 		f := e.prog.LookupMethod(recv.T, call.Method.Pkg(), call.Method.Name())
 		if f == nil {
